@@ -295,6 +295,8 @@ def check(ck: Check) -> None:
     ck.run("R20.3", "protocol order; unknown types raise", lambda: r20_3(ck))
     ck.run("R20.4", "validate before mutate", lambda: r20_4(ck))
     ck.run("R20.5", "bounded reads", lambda: r20_5(ck))
+    from .c19 import r19_6
+    ck.run("R20.6", "peer-supplied addresses are sanitised before they reach code outside the catch-all", lambda: r19_6(ck, "R20.6"))
     ck.note("not armed (timing is a runtime quantity): the VLQ reader accumulates an unbounded int; a 32 MiB run of continuation bytes makes decoding quadratic")
     ck.note("residual escape routes outside this property's input class: handle_incoming_connection (accept / getpeername re-raise) and the manager steps run "
             "outside the catch-all and end the loop through run()'s handler if they raise; they process no peer payload")
